@@ -1,8 +1,13 @@
 package checks
 
 import (
+	"context"
+	"encoding/json"
 	"fmt"
 	"net"
+	"os"
+	"os/exec"
+	"path/filepath"
 	"sort"
 	"strings"
 	"time"
@@ -99,6 +104,7 @@ func c18Instants(r tldRef) []time.Time {
 }
 
 func c18Once(c *mon.Ctx) {
+	c18Generator(c)
 	// (a) live-table invariant
 	for k, p := range util.VerifTLDMap() {
 		c.R.Count("evaluations", 1)
@@ -179,6 +185,41 @@ func c18Once(c *mon.Ctx) {
 	}
 }
 
+// c18Generator runs zlint's table generator (cmd/zlint-gtld-update) against hostile upstream data. The monitor is
+// compiled into the generator's own package with `go test -overlay` (nothing is written under the repository).
+func c18Generator(c *mon.Ctx) {
+	src := filepath.Join(c.Home, "harness", "gtldgen", "verif_gen_test.go.txt")
+	dst := filepath.Join(c.Repo, "v3", "cmd", "zlint-gtld-update", "verif_gen_test.go")
+	ov := filepath.Join(c.Work, "gtldgen-overlay.json")
+	b, _ := json.Marshal(map[string]any{"Replace": map[string]string{dst: src}})
+	if err := os.WriteFile(ov, b, 0o644); err != nil {
+		c.R.Inconcl("generator monitor: " + err.Error())
+		return
+	}
+	ctx, cancel := context.WithTimeout(context.Background(), 10*time.Minute)
+	defer cancel()
+	cmd := exec.CommandContext(ctx, "go", "test", "-v", "-count=1", "-vet=off", "-overlay", ov, "-run", "^TestVerifGenerator$", "./cmd/zlint-gtld-update/")
+	cmd.Dir = filepath.Join(c.Repo, "v3")
+	cmd.Env = append(os.Environ(), "GOFLAGS=-mod=readonly", fmt.Sprintf("VERIF_SEED=%d", c.Seed), fmt.Sprintf("VERIF_GEN_DOCS=%d", c.Pick(300, 6000)))
+	out, err := cmd.CombinedOutput()
+	stats := false
+	for _, l := range strings.Split(string(out), "\n") {
+		if strings.HasPrefix(l, "VERIF-GEN-VIOLATION ") {
+			parts := strings.SplitN(strings.TrimPrefix(l, "VERIF-GEN-VIOLATION "), " :: ", 2)
+			c.V("generator|"+parts[0], "table generator: "+clipS(parts[len(parts)-1], 400), "", nil, nil)
+		}
+		if strings.HasPrefix(l, "VERIF-GEN-STATS ") {
+			stats = true
+			c.R.Note("generator_run", strings.TrimPrefix(l, "VERIF-GEN-STATS "))
+			c.R.Count("generator_documents", int64(c.Pick(300, 6000)))
+			c.R.Count("evaluations", int64(c.Pick(300, 6000)))
+		}
+	}
+	if !stats {
+		c.R.Inconcl(fmt.Sprintf("generator monitor did not run to completion (%v): %s", err, clipS(string(out), 500)))
+	}
+}
+
 func boundaryLabel(r tldRef, t time.Time) string {
 	switch {
 	case t.Unix() == r.deleg.Unix():
@@ -196,7 +237,7 @@ func boundaryLabel(r tldRef, t time.Time) string {
 func init() {
 	mon.Register(&mon.Check{
 		ID:          "C18",
-		Rule:        "(a) structural invariant over every entry of the live compiled-in TLD table (hook VerifTLDMap); (b) util.HasValidTLD / IsInTLDMap against a reference built from that table, exhaustively for every entry at its delegation and removal instants -1s/0/+1s/+-1d, in lower/upper/mixed case, with label prefixes, trailing dots and near-miss labels; (c) e_dnsname_not_valid_tld on generated server-auth subscriber certificates (common name / dNSNames / IP common name mixes) dated at those instants: error <=> some non-IP CN or dNSName fails the reference at notBefore (NE before the lint's effective date). evaluations = API probes + table entries + certificates linted; distinct_nontrivial = table entries exercised.",
+		Rule:        "(a) structural invariant over every entry of the live compiled-in TLD table (hook VerifTLDMap); (b) util.HasValidTLD / IsInTLDMap against a reference built from that table, exhaustively for every entry at its delegation and removal instants -1s/0/+1s/+-1d, in lower/upper/mixed case, with label prefixes, trailing dots and near-miss labels; (d) the table generator cmd/zlint-gtld-update itself, run against seeded upstream documents with well-formed and malformed dates served by a fake transport (monitor compiled into its package with go test -overlay): clean data must be written, and whatever is written must have parseable delegation and removal dates; (c) e_dnsname_not_valid_tld on generated server-auth subscriber certificates (common name / dNSNames / IP common name mixes) dated at those instants: error <=> some non-IP CN or dNSName fails the reference at notBefore (NE before the lint's effective date). evaluations = API probes + table entries + certificates linted; distinct_nontrivial = table entries exercised.",
 		Assumptions: []string{"the reference is built from the same live table the implementation reads, so a wrong table entry is only caught by the structural invariant (a)"},
 		Setup: func(c *mon.Ctx) error {
 			if err := setupCommon(c); err != nil {
@@ -305,6 +346,10 @@ func init() {
 			ev.Coverage["tlds_in_certificates"] = r.SetSize("tlds_in_certificates")
 			ev.Coverage["lint_outcomes"] = r.Sets["lint_outcomes"]
 			ev.Coverage["exhaustive"] = true
+			ev.Coverage["generator_run"] = r.Notes["generator_run"]
+			if r.Counters["generator_documents"] == 0 {
+				gates = append(gates, "the table-generator monitor did not run (see inconclusive)")
+			}
 			if r.SetSize("table_entries") < 1000 {
 				gates = append(gates, "table hook returned fewer than 1000 entries")
 			}
